@@ -125,7 +125,8 @@ pub fn check(c: &Case, ctx: &mut Ctx) -> Result<(), Failure> {
                 if tp_big > 1e300 {
                     // n window values plus the incoming one (MeanAbsoluteDeviation adds before it subtracts)
                     let wsum: f64 = bars[w0.saturating_sub(1)..].iter().map(|b| tp_dd(b).to_f64().abs()).sum();
-                    if !wsum.is_finite() {
+                    // the deviation sum is bounded by twice the price sum: either may overflow
+                    if !(2.0 * wsum).is_finite() {
                         cci_sum_overflowed = true;
                     }
                 }
